@@ -51,6 +51,10 @@ BODIES = [
     ("closure", 1, ["return (K, recurse(x - K)) if x >= K else call_next(x + K)"]),
     ("closure_inner", 1, ["def inner():", "    return recurse(x - K) if x >= K else call_next(x)", "return inner()"]),
     ("nested_class_body", 1, ["class Box:", "    v = recurse(x - 1) if x > 0 else call_next(x)", "return ('A', Box.v)"]),
+    # a nested lambda / def whose PARAMETER is called like the function (or like recurse): inside it the name is the parameter
+    ("shadowing_lambda", 1, ["bump = lambda F: F + 1", "return (bump(x), recurse(x - 1)) if x > 0 else call_next(x)"]),
+    ("shadowing_def", 1, ["def twice(recurse):", "    return recurse * 2", "return (twice(x), recurse(x - 1)) if x > 0 else call_next(x)"]),
+    ("sentinel_default", 1, ["return (scale is SENT, len(BOX), call_next(x) if x < 2 else recurse(x - 2))"]),
     ("lambda_default", 1, ["return (scale(x), call_next(x) if x < 2 else recurse(x - 2))"]),
     ("default_arg", 1, ["return (scale, call_next(x * scale) if x < 2 else recurse(x - 2))"]),
     ("self_name", 1, ["return ('self', F(x - 1)) if x > 0 else call_next(x)"]),
@@ -91,13 +95,14 @@ def module_for(name, npos, body, tier):
     closure = name.startswith("closure")
     dflt = name == "default_arg"
     lam = name == "lambda_default"      # a default value that is itself a code object (lambda) of the definition
+    sent = name == "sentinel_default"   # defaults whose IDENTITY matters: a module-level sentinel, a shared mutable object
     L = []
     L.append("import inspect, textwrap, types, sys as _sys")
     L.append("from ovld import Ovld, recurse, call_next")
     L.append("from ovld.utils import UsageError")
     L.append("TICKS = []\n\ndef tick(v):\n    TICKS.append(v)\n    return v\n")
-    L.append("DFLT = 3")
-    hdr = f"def A({params}" + (", *, scale=DFLT" if dflt else ", *, scale=(lambda v: v * 10)" if lam else "") + KW + "):"
+    L.append("DFLT = 3\nSENT = object()\nBOX = []")
+    hdr = f"def A({params}" + (", *, scale=DFLT" if dflt else ", *, scale=(lambda v: v * 10)" if lam else ", *, scale=SENT, box=BOX" if sent else "") + KW + "):"
     if closure:
         L.append("def _factory(K, J=7):\n    " + hdr + "\n" + "\n".join("        " + ln for ln in body) + "\n    return A\n\nA = _factory(2)\n")
     else:
@@ -121,7 +126,7 @@ def module_for(name, npos, body, tier):
         L.append("def NEXT_A(x, **kw):\n    if _isint(x):\n        return B(x, **kw)\n    return REF(x, **kw)\n")
     # (the reference must see the source text exactly as written: an indented definition is wrapped in a block instead of being dedented,
     # which would also alter the continuation lines of multi-line string literals)
-    L.append("_raw = inspect.getsource(A)\n_REF_OFF = 2 if _raw[:1] in ' \\t' else 1\n_src = ('if True:\\n' + _raw) if _REF_OFF == 2 else _raw\n_ns = dict(recurse=REF, call_next=NEXT_A, F=REF, tick=tick, DFLT=DFLT, K=2, J=7)\n"
+    L.append("_raw = inspect.getsource(A)\n_REF_OFF = 2 if _raw[:1] in ' \\t' else 1\n_src = ('if True:\\n' + _raw) if _REF_OFF == 2 else _raw\n_ns = dict(recurse=REF, call_next=NEXT_A, F=REF, tick=tick, DFLT=DFLT, K=2, J=7, SENT=SENT, BOX=BOX)\n"
              "exec(compile(_src, '<reference>', 'exec'), _ns)\nA_ref = _ns['A']\n")
     L.append('''
 def _run(fn, *args):
